@@ -35,7 +35,7 @@ def shards(tier, seed):
     return [{"kind": "maps", "index": i, "of": n} for i in range(n)]
 
 
-def build(rules, strict, merge, redirect_defaults):
+def build(rules, strict, merge, redirect_defaults, sort_parameters=False):
     from werkzeug.routing import Map, Rule
 
     rl = []
@@ -50,7 +50,7 @@ def build(rules, strict, merge, redirect_defaults):
         if r.get("alias"):
             kw["alias"] = True
         rl.append(Rule(R.rule_str(r), endpoint=r["ep"], methods=r["methods"], **kw))
-    return Map(rl, strict_slashes=strict, merge_slashes=merge, redirect_defaults=redirect_defaults)
+    return Map(rl, strict_slashes=strict, merge_slashes=merge, redirect_defaults=redirect_defaults, sort_parameters=sort_parameters)
 
 
 def lenient_denotation(rules, p, method):
@@ -102,8 +102,9 @@ def check_map(rec, rng, rules, strict, merge, rd, script, scheme, sub):
     from werkzeug.exceptions import HTTPException
     from werkzeug.routing.exceptions import RequestRedirect
 
+    sortp = rng.random() < 0.3
     try:
-        m = build(rules, strict, merge, rd)
+        m = build(rules, strict, merge, rd, sortp)
     except Exception as e:
         rec.observe(f"map_build_error:{type(e).__name__}")
         return
@@ -148,7 +149,9 @@ def check_map(rec, rng, rules, strict, merge, rd, script, scheme, sub):
         if qkind == "str" and u.query != q:
             rec.violation("C12/query-string-altered", f"{url!r} query {q!r}; {case}", case, monitor="query")
             continue
-        if qkind == "map" and parse_qsl(u.query, keep_blank_values=True) != [("k", "v w"), ("é", "1"), ("é", "2")]:
+        got_q = parse_qsl(u.query, keep_blank_values=True)
+        exp_q = [("k", "v w"), ("é", "1"), ("é", "2")]
+        if qkind == "map" and (sorted(got_q) != sorted(exp_q) or [v for k, v in got_q if k == "é"] != ["1", "2"] or (not sortp and got_q != exp_q)):
             rec.violation("C12/query-mapping-altered", f"{url!r}; {case}", case, monitor="query")
             continue
         if qkind == "none" and u.query:
@@ -254,6 +257,65 @@ def gen_rules(rng):
     return rules + extra
 
 
+def concurrent_first_use(rec, rng, n):
+    """Two threads hit a fresh map at once (yields injected inside Map.update): an alias registered before its
+    canonical rule must still redirect to the canonical URL, never to itself."""
+    import sys
+    import threading
+    import time
+
+    from werkzeug.routing import Map, Rule
+    from werkzeug.routing import map as MP
+    from werkzeug.routing.exceptions import RequestRedirect
+
+    mon = sys.monitoring
+    TOOL = 5
+    try:
+        mon.use_tool_id(TOOL, "verif-yield-c12")
+    except ValueError:
+        return
+    mon.register_callback(TOOL, mon.events.LINE, lambda code, line: time.sleep(0.0005))
+    mon.set_local_events(TOOL, MP.Map.update.__code__, mon.events.LINE)
+    try:
+        for _ in range(n):
+            rules = [Rule("/index.html", endpoint="index", alias=True), Rule("/", endpoint="index"), Rule("/old/<int:p>", endpoint="page", alias=True),
+                     Rule("/page/<int:p>/", endpoint="page"), Rule("/x", endpoint="x")]
+            if rng.random() < 0.5:
+                rules[2], rules[3] = rules[3], rules[2]
+            ad = Map(rules).bind("h.com", "/app", url_scheme="https")
+            results = {}
+            barrier = threading.Barrier(2)
+
+            def worker(i):
+                out = []
+                barrier.wait()
+                for p in (["/index.html", "/old/7"] if i == 0 else ["/old/7", "/index.html"]):
+                    try:
+                        ad.match(p)
+                        out.append((p, "matched"))
+                    except RequestRedirect as e:
+                        out.append((p, e.new_url))
+                    except Exception as e:  # noqa: BLE001
+                        out.append((p, type(e).__name__))
+                results[i] = out
+
+            ts = [threading.Thread(target=worker, args=(i,)) for i in range(2)]
+            for t in ts:
+                t.start()
+            for t in ts:
+                t.join(30)
+            rec.case()
+            rec.observe("concurrent_first_use_maps")
+            exp = {"/index.html": "https://h.com/app/", "/old/7": "https://h.com/app/page/7/"}
+            for i, out in results.items():
+                for p, got in out:
+                    if got != exp[p]:
+                        rec.violation("C12/concurrent-first-use-alias-redirect", f"thread {i}: match({p!r}) -> {got!r}, expected redirect to {exp[p]!r}", {"path": p, "rules": [r.rule for r in rules]}, monitor="schedule-stress")
+    finally:
+        mon.set_local_events(TOOL, MP.Map.update.__code__, 0)
+        mon.free_tool_id(TOOL)
+
+
 def run(shard, rec, rng):
     from werkzeug.routing import map as MP
 
@@ -261,6 +323,7 @@ def run(shard, rec, rng):
                         "MapAdapter.make_alias_redirect_url": opt(lambda: MP.MapAdapter.make_alias_redirect_url), "MapAdapter.match": opt(lambda: MP.MapAdapter.match),
                         "MapAdapter.encode_query_args": opt(lambda: MP.MapAdapter.encode_query_args), "MapAdapter.get_host": opt(lambda: MP.MapAdapter.get_host)})
     cfg = TIERS[shard["_tier"]]
+    concurrent_first_use(rec, rng, 5 if shard["_tier"] == "quick" else 30)
     for _ in range(cfg["maps"]):
         rules = gen_rules(rng)
         check_map(rec, rng, rules, rng.random() < 0.6, rng.random() < 0.6, rng.random() < 0.8, rng.choice(["/", "/app", "/app/", "/a/b"]),
